@@ -264,10 +264,12 @@ func c18Registry(c *Ctx) {
 	sub := &Ctx{P: c.P, R: newScratchReport(), Tier: c.Tier, VerifDir: c.VerifDir}
 	c10Fallback(sub)
 	for _, o := range sub.R.Obls {
-		if strings.HasPrefix(o.Key, "C10.R5|GetDefaultHandler") || strings.HasPrefix(o.Key, "C10.R5|BaseHandler") {
+		if strings.HasPrefix(o.Key, "C10.R5|GetDefaultHandler") || strings.HasPrefix(o.Key, "C10.R5|BaseHandler") || strings.HasPrefix(o.Key, "C10.R5|role:returns of GetDefaultHandler") {
 			k := strings.TrimPrefix(o.Key, "C10.R5|")
 			if o.Status == "discharged" {
 				R.OK("C18.R2", k, o.Construct, o.Pos, o.Reason)
+			} else if o.Status == "undecided" {
+				R.Unknown("C18.R2", k, o.Construct, o.Pos, o.Reason)
 			} else {
 				R.Fail("C18.R2", k, o.Construct, o.Pos, o.Reason)
 			}
